@@ -630,9 +630,21 @@ def run(rep, tier, seed):
     # ---------------- constructor calls
     n_shapes = 90 if tier == "quick" else 900
     ccases, meta = [], []
-    for s in range(n_shapes):
-        model_kind = ["dataclass", "attrs", "init"][s % 3]
-        flds = gen_shape(r, model_kind)
+    # shapes that run first on every seed: several defaults that are equal and hash alike but of different types and have
+    # no literal (Decimal(1), Fraction(1), IntEnum(1), int subclass 1, 1+0j) in one model
+    def look(i, z, kind=1):
+        return {"kind": kind, "default": ("value", ("look", i, z)), "skipped": False, "private": False}
+    req = {"kind": 1, "default": ("none",), "skipped": False, "private": False}
+    corpus_shapes = []
+    for mk in ("dataclass", "attrs", "init"):
+        corpus_shapes += [(mk, [dict(req), look(0, 1), look(1, 1), look(3, 1)]), (mk, [dict(req), look(4, 1), look(0, 1)]),
+                          (mk, [look(1, 0), look(0, 0), look(4, 0), look(2, 0)]), (mk, [dict(req), look(3, 2), look(0, 2, 2), look(1, 2, 2)])]
+    for s in range(n_shapes + len(corpus_shapes)):
+        if s < len(corpus_shapes):
+            model_kind, flds = corpus_shapes[s]
+        else:
+            model_kind = ["dataclass", "attrs", "init"][s % 3]
+            flds = gen_shape(r, model_kind)
         try:
             cls, names = build_class(model_kind, flds, s)
         except (ValueError, TypeError):
